@@ -1,8 +1,12 @@
 """C08 — Wasserstein embeddings depend only on the measure, not on its encoding.
 
-Proof gate (Properties/C08.v, Properties/C08_isometry.v) + correspondence of the per-row pipeline of
-lot_vectors_dense_internal / lot_vectors_sparse_internal with Model/K17_LOTglue.lot_pipeline executed on binary64
-(PrimFloat, vm_compute) with the implementation's own plan as input + property oracle on the implementation:
+Proof gate (Properties/C08.v and every Properties/C08_*.v: C08_isometry, C08_spherical) + correspondence of the per-row
+pipeline of lot_vectors_dense_internal / lot_vectors_sparse_internal (euclidean and cosine / spherical branch) with
+Model/K17_LOTglue.lot_pipeline and Model/K17_LOTspherical.lot_pipeline_sph executed on binary64 (PrimFloat,
+vm_compute) with the implementation's own plan as input, of sinkhorn_vectors_sparse_internal with
+K17_LOTspherical.sinkhorn_row given the implementation's own Sinkhorn scalings, and of
+ApproximateWassersteinVectorizer.transform with Model/K17_ApproxW.approx_transform given the fitted SVD factors
++ property oracle on the implementation:
 every distribution re-encoded by scale / zero-padding / permutation / splitting, memory_size from "1k" upward,
 input formats, metrics, reference sizes, for the Wasserstein, Sinkhorn and ApproximateWasserstein vectorizers, and the
 pairwise-distance isometry at full-rank n_components."""
@@ -23,6 +27,23 @@ Open Scope float_scope.
 Definition fz (f : float) : Z * Z :=
   let (m, e) := frshiftexp (abs f) in
   ((if PrimFloat.ltb f 0 then -1 else 1)%Z * Uint63.to_Z (normfr_mantissa m), Uint63.to_Z e)%Z.
+"""
+
+HEADER_SPH = HEADER.replace("Model.K17_LOTglue.", "Model.K17_LOTglue Model.K17_LOTspherical Model.K17_ApproxW.") + """
+Definition images_F := images float 0 1 PrimFloat.add PrimFloat.mul PrimFloat.div.
+Definition truncate_F := @truncate float PrimFloat.ltb (list float).
+(* the spherical row of the model and, per reference point, the norm of the tangent vector before normalisation *)
+Definition sph_case (maxsize m d : nat) (w : list float) (xs : list (list float)) (q : list float) (ys plan : list (list float)) :=
+  let img := images_F m d q (combine (map snd (truncate_F maxsize (combine w xs))) plan) in
+  (map fz (lot_pipeline_sph_F maxsize m d w xs q ys (fun _ => plan)),
+   map2 (fun n c => [fz n; fz c; fz (tie_dist_F c)]) (tangent_norms_F m d img ys) (cosines_F m d img ys)).
+Definition sink_images_F := sink_images float 0 PrimFloat.add PrimFloat.mul PrimFloat.eqb.
+Definition sink_case (m d : nat) (us vs : list (list float)) (K xs ys : list (list float)) :=
+  map2 (fun u v => let img := sink_images_F d u K v xs in
+                   (map fz (sinkhorn_row_F m d u K v xs ys),
+                    map2 (fun n c => [fz n; fz c; fz (tie_dist_F c)]) (tangent_norms_F m d img ys) (cosines_F m d img ys))) us vs.
+Definition approx_case (pw : float -> float) (d : nat) (V comps : list (list float)) (svs : list float)
+           (X : list (list (nat * float))) := map (map fz) (approx_transform_F pw d V comps svs X).
 """
 
 
@@ -293,6 +314,79 @@ def gen_pipeline(rng):
             "ys": [gauss_vec(rng, d) for _ in range(m)], "max_distribution_size": mds, "n": n, "m": m, "d": d}
 
 
+def unit(v):
+    n = math.sqrt(sum(t * t for t in v))
+    return [t / n for t in v]
+
+
+def gen_pipeline_sph(rng):
+    """One row through lot_vectors_*_internal with the cosine metric and spherical_vectors=True.  The vectorizers hand
+    the kernel L2-normalised vectors; the kernel itself does not require it, and a third of the cases keep the sample
+    or the reference vectors un-normalised (so that the normalisations inside the kernel are exercised)."""
+    case = gen_pipeline(rng)
+    n, m = case["n"], case["m"]
+    d = rng.choice([2, 3, 3, 4])
+    centre = [rng.gauss(0, 1) for _ in range(d)]
+    spread = rng.choice([0.3, 0.7, 1.5])
+    xs = [gauss_vec(rng, d, centre, spread) for _ in range(n)]
+    ys = [gauss_vec(rng, d, centre, spread) for _ in range(m)]
+    mode = rng.choice(["unit", "unit", "raw-x", "raw-y"])
+    if mode != "raw-x":
+        xs = [unit(v) for v in xs]
+    if mode != "raw-y":
+        ys = [unit(v) for v in ys]
+    if rng.random() < 0.2:
+        xs[0] = list(ys[0])                      # a support point that IS a reference point (n = 1: zero tangent vector)
+    case.update({"spherical": True, "d": d, "xs": xs, "ys": ys, "vec_mode": mode})
+    return case
+
+
+def gen_sinkrow(rng):
+    b = rng.choice([1, 2, 3, 5])
+    n = rng.choice([1, 2, 3, 4, 6])
+    m = rng.choice([1, 2, 3, 5])
+    d = rng.choice([2, 3, 4])
+    centre = [rng.gauss(0, 1) for _ in range(d)]
+    xs = [unit(gauss_vec(rng, d, centre, 0.7)) for _ in range(n)]
+    ys = [unit(gauss_vec(rng, d, centre, 0.7)) for _ in range(m)]
+    D = []
+    for _ in range(b):
+        w = [0.05 + rng.random() for _ in range(n)]
+        if n >= 2:
+            for j in rng.sample(range(n), rng.choice([0, 0, 1, n - 1])):
+                w[j] = 0.0                        # zero entries of a row: v[j] == 0 is skipped by the image loop
+        s = math.fsum(w)
+        D.append([x / s for x in w])
+    q = [0.2 + rng.random() for _ in range(m)]
+    s = math.fsum(q)
+    return {"type": "sinkrow", "b": b, "n": n, "m": m, "d": d, "distributions": D, "xs": xs, "ys": ys,
+            "q": [x / s for x in q]}
+
+
+def gen_approxrow(rng):
+    d = rng.choice([2, 3, 4])
+    N = rng.randint(d + 2, 9)
+    nfit = rng.randint(d + 3, 10)
+    vectors = [gauss_vec(rng, d) for _ in range(N)]
+
+    def row(explicit_zero):
+        k = rng.choice([1, 2, 3, 4, min(5, N)])
+        cols = rng.sample(range(N), min(k, N))           # storage order as drawn (not sorted)
+        r = [[c, round(0.05 + rng.random(), 6) * 10.0 ** rng.choice([-2, 0, 0, 3])] for c in cols]
+        if explicit_zero and len(r) < N:
+            free = [c for c in range(N) if c not in cols]
+            r.insert(rng.randint(0, len(r)), [rng.choice(free), 0.0])
+        return r
+    fit_rows = [row(False) for _ in range(nfit)]
+    fmt = rng.choice(["csr", "csr", "ndarray"])
+    rows = [row(fmt == "csr" and rng.random() < 0.4) for _ in range(rng.randint(1, 5))]
+    if fmt == "ndarray":
+        rows = [sorted(r) for r in rows]                  # csr_matrix(ndarray) stores the non-zeros in column order
+    return {"type": "approxrow", "d": d, "N": N, "vectors": vectors, "fit_rows": fit_rows, "rows": rows, "fmt": fmt,
+            "n_components": rng.choice([None, None, 2, 1]), "power": rng.choice([1.0, 1.0, 0.5, 2.0, 0.0]),
+            "random_state": rng.randint(0, 10 ** 6)}
+
+
 # ---------------------------------------------------------------- Coq rendering of the pipeline model
 def fl(x):
     h = float(x).hex()
@@ -305,6 +399,97 @@ def coq_pipeline(case, plan):
     return "map fz (lot_pipeline_F %d%%nat %d%%nat %d%%nat %s %s %s %s (fun _ => %s))" % (
         case["max_distribution_size"], case["m"], case["d"], fl1(case["w"]), fl2(case["xs"]), fl1(case["q"]),
         fl2(case["ys"]), fl2(plan if plan is not None else []))
+
+
+def coq_pipeline_sph(case, plan):
+    fl1 = lambda v: C.coq_list(v, fl)
+    fl2 = lambda v: C.coq_list2(v, fl)
+    return "sph_case %d%%nat %d%%nat %d%%nat %s %s %s %s %s" % (
+        case["max_distribution_size"], case["m"], case["d"], fl1(case["w"]), fl2(case["xs"]), fl1(case["q"]),
+        fl2(case["ys"]), fl2(plan if plan is not None else []))
+
+
+def coq_sinkrow(case, r):
+    fl2 = lambda v: C.coq_list2(v, fl)
+    return "sink_case %d%%nat %d%%nat %s %s %s %s %s" % (case["m"], case["d"], fl2(r["u"]), fl2(r["v"]), fl2(r["K"]),
+                                                         fl2(case["xs"]), fl2(case["ys"]))
+
+
+PW = {1.0: "pw_one", 0.5: "pw_half", 2.0: "pw_two", 0.0: "pw_zero"}
+
+
+def coq_approx(case, r):
+    fl1 = lambda v: C.coq_list(v, fl)
+    fl2 = lambda v: C.coq_list2(v, fl)
+    rows = C.coq_list(case["rows"], lambda row: C.coq_list(row, lambda e: "(%d%%nat, %s)" % (e[0], fl(e[1]))))
+    return "approx_case %s %d%%nat %s %s %s %s" % (PW[case["power"]], case["d"], fl2(case["vectors"]), fl2(r["components"]),
+                                                  fl1(r["singular_values"]), rows)
+
+
+def model_expr(item, r):
+    if item["type"] == "sinkrow":
+        return coq_sinkrow(item, r)
+    if item["type"] == "approxrow":
+        return coq_approx(item, r)
+    if item.get("spherical"):
+        return coq_pipeline_sph(item, r["plan"])
+    return coq_pipeline(item, r["plan"])
+
+
+ROW_TYPES = ("pipeline", "sinkrow", "approxrow")
+
+
+def child_and_model(key, items, gate_future):
+    """Runs one implementation child and, as soon as it is back (and the proof gate has built the models), evaluates
+    the Coq model on the row cases of that child — so that the vm_compute of a short child overlaps the long ones."""
+    res, info = run_child("c08", items, key, {"NUMBA_NUM_THREADS": "2"})
+    live = [(it, r) for it, r in zip(items, res or []) if it["type"] in ROW_TYPES and "err" not in r]
+    model, err = [], None
+    if live:
+        gate_future.result()
+        try:
+            model = C.coq_eval_sharded("C08_" + "".join(ch if ch.isalnum() else "_" for ch in key), HEADER_SPH,
+                                       [model_expr(it, r) for it, r in live], shard=20, jobs=6)
+        except Exception as e:  # noqa  (a model that no longer builds / evaluates is reported by the parent)
+            err = str(e)[-1500:]
+    return res, info, live, model, err
+
+
+SQRT_EXEMPT = [0]
+
+
+F32_TIES = [0]
+
+
+def sph_compare(impl, model, info, d, signed_sqrt):
+    """Per reference point (block of d entries); info[j] = (tangent norm before normalisation, cosine distance, its
+    distance to the nearest float32 rounding boundary), all from the model.  A block whose tangent vector is shorter
+    than 1e-6 while its model output is not small is an antipodal image: the direction of the tangent vector is
+    rounding noise there; skipped (counted).  A block whose cosine distance (> 1e-6) lies within 1e-13 of a float32
+    rounding boundary is skipped (counted): a last-bit difference flips the float32 store.  Otherwise
+    |impl - model| <= 1e-9, or — after the kernel's signed square root, which turns an absolute error e near 0 into
+    sqrt(e) — equality of the signed squares to 1e-13.  Returns (ok, worst deviation, antipodal blocks skipped)."""
+    if len(impl) != len(model):
+        return False, float("inf"), 0
+    worst, skipped = 0.0, 0
+    for j in range(len(info)):
+        a, b = impl[j * d:(j + 1) * d], model[j * d:(j + 1) * d]
+        norm_j, cos_j, tie_j = (from_fz(t) for t in info[j])
+        if any(x != x for x in a) or any(x != x for x in b):
+            return False, float("nan"), skipped
+        if norm_j < 1e-6 and max(abs(x) for x in b) > 1e-3:
+            skipped += 1
+            continue
+        if abs(cos_j) > 1e-6 and tie_j < 1e-13:
+            F32_TIES[0] += 1
+            continue
+        for x, y in zip(a, b):
+            dev = abs(x - y)
+            if dev > MODEL_TOL and signed_sqrt and abs(x * abs(x) - y * abs(y)) <= 1e-13:
+                dev = 0.0
+                SQRT_EXEMPT[0] += 1
+            worst = max(worst, dev)
+    return worst <= MODEL_TOL, worst, skipped
 
 
 def from_fz(pair):
@@ -452,20 +637,34 @@ def build_payloads(ctx, replay):
         for sc in items_:
             sc["prehistory"] = (sc["id"] % 2 == 0)
     pipeline = [gen_pipeline(rng) for _ in range(60 if ctx.quick else 800)]
+    # (drawn after everything else, so that the streams above are those of the earlier versions of this check)
+    pipeline_sph = [gen_pipeline_sph(rng) for _ in range(60 if ctx.quick else 800)]
+    sinkrows = [gen_sinkrow(rng) for _ in range(24 if ctx.quick else 300)]
+    approxrows = [gen_approxrow(rng) for _ in range(30 if ctx.quick else 400)]
     if ctx.quick:
         payloads["euclidean"] = payloads["euclidean"] + pipeline      # one process less to compile the kernels
     else:
         payloads["pipeline"] = pipeline
+    # the spherical / Sinkhorn / approx row cases get a child of their own: it is short (no estimator is fitted but the
+    # approx ones) and stays off the critical path of the quick tier
+    payloads["rows"] = pipeline_sph + sinkrows + approxrows
     return payloads
 
 
 def run(ctx, replay=None):
-    C.run_gate(ctx, extra_props=("C08_isometry",))
+    import glob
+    import os
+    extra = sorted(os.path.basename(f)[:-2] for f in glob.glob(os.path.join(C.VERIF, "coq", "theories", "Properties", "C08_*.v")))
     payloads = build_payloads(ctx, replay)
     ctx.coverage["rule"] = ("scenarios = random distribution collection x vector set x metric x reference size; each transformed at "
                             "memory_size 1k..2G, in every input format, and re-encoded by scale / zero-padding (structural and stored "
                             "zeros) / permutation / splitting (+ a combination, + duplicated rows); non-trivial = every scenario; "
-                            "pipeline cases = one row through lot_vectors_{dense,sparse}_internal vs the Coq model")
+                            "pipeline cases = one row through lot_vectors_{dense,sparse}_internal vs the Coq model (euclidean "
+                            "metric with spherical_vectors=False; cosine metric with spherical_vectors=True, unit and non-unit "
+                            "vectors, a support point equal to a reference point); sinkrow cases = one chunk through "
+                            "sinkhorn_vectors_sparse_internal vs the model given the chunk's own (u, v, K); approxrow cases = "
+                            "ApproximateWassersteinVectorizer.transform (normalization_power 1, 0.5, 2, 0; csr with stored zeros "
+                            "and unsorted columns, ndarray) vs the model given components_ and singular_values_")
     ctx.assumptions += [
         "the transport plan (network simplex) and the SVD are external: the theorems take the plan as input and V V^T = I as hypothesis; "
         "the harness checks |VV^T - I| and the rank on every isometry case",
@@ -475,17 +674,27 @@ def run(ctx, replay=None):
         "truncation is covered by the pipeline correspondence (distinct weights)",
         "ApproximateWassersteinVectorizer: normalization_power = 1 (other powers are scale dependent by design); encodings that change "
         "the vector set are compared through fit_transform because transform has no vectors argument",
+        "spherical rows are compared entry by entry at 1e-9 absolute; after the kernel's signed square root an entry is also "
+        "accepted when the signed squares agree to 1e-13 (sqrt turns an absolute rounding error e at 0 into sqrt(e)); a block whose "
+        "model tangent vector is shorter than 1e-6 before normalisation while its output is not small (antipodal image: direction "
+        "undefined) is skipped; both events are counted in coverage.correspondence",
+        "the float32 store of the tangent scale is modelled as round-to-nearest-even on 24 bits (normal float32 range)",
         "work-arounds for defects owned elsewhere: D17 fresh copies of inputs per call; D18 private cachedir removed by the child; "
         "D7 generator-vs-matrix transform compared for cosine only; lil transform with ragged vector sets (non-cosine) avoided",
     ]
     from concurrent.futures import ThreadPoolExecutor
     keys = list(payloads)
-    with ThreadPoolExecutor(max_workers=len(keys)) as ex:
-        futs = {k: ex.submit(run_child, "c08", payloads[k], k, {"NUMBA_NUM_THREADS": "2"}) for k in keys}
-        results = {k: f.result() for k, f in futs.items()}
+    # the proof gate (make + Print Assumptions of Properties/C08.v and every Properties/C08_*.v) runs beside the
+    # implementation children; the model evaluations wait for it
+    with ThreadPoolExecutor(max_workers=len(keys) + 1) as ex:
+        gate_future = ex.submit(C.run_gate, ctx, tuple(extra))
+        futs = {k: ex.submit(child_and_model, k, payloads[k], gate_future) for k in keys}
+        full = {k: f.result() for k, f in futs.items()}
+        gate_future.result()
+    results = {k: (v[0], v[1]) for k, v in full.items()}
     stats = {"comparisons": 0, "rows_compared": 0, "skipped_near_tie_rows": 0, "max_rel_dev": 0.0, "isometry_cases": 0,
              "isometry_not_full_rank": 0, "max_isometry_dev": 0.0, "scenarios": 0}
-    pipe_todo = []
+    pipe_todo, row_todo = [], []
     ctx.coverage["child_wall_s"] = {k: results[k][1]["wall_s"] for k in keys}
     ctx.coverage["gate_wall_s"] = (ctx.gate or {}).get("wall_s")
     for k in keys:
@@ -499,6 +708,9 @@ def run(ctx, replay=None):
             if item["type"] == "pipeline":
                 pipe_todo.append((item, r))
                 continue
+            if item["type"] in ("sinkrow", "approxrow"):
+                row_todo.append((item, r))
+                continue
             stats["scenarios"] += 1
             ctx.count_case({"id": item["id"], "kind": item["kind"], "metric": item["metric"], "rs": item.get("random_state")},
                            nontrivial=True, kind=item["kind"] + ":" + item["metric"] + ":ref=" + str(item.get("reference_size", "explicit")))
@@ -510,32 +722,84 @@ def run(ctx, replay=None):
                         (c2.get("cmp") for c2 in item["calls"] if c2["name"] == callname), None)]
                 ctx.report(msg, {"stage": "oracle", "case": small, "call": callname}, found_input=True)
     # ---- correspondence: the Coq model of the per-row pipeline, on binary64, with the implementation's plan
-    exprs, live = [], []
-    for item, r in pipe_todo:
-        ctx.count_case(item, nontrivial=item["n"] >= 2, kind="pipeline:%s:%s" % (
-            item["kernel"], "truncating" if item["max_distribution_size"] < item["n"] else "full"))
+    live, model, model_errors = [], [], []
+    for k in keys:
+        live += full[k][2]
+        model += full[k][3] if len(full[k][3]) == len(full[k][2]) else [None] * len(full[k][2])
+        if full[k][4]:
+            model_errors.append(full[k][4])
+    for item, r in pipe_todo + row_todo:
+        if item["type"] == "pipeline":
+            ctx.count_case(item, nontrivial=item["n"] >= 2, kind="pipeline%s:%s:%s" % (
+                "-sph:" + item["vec_mode"] if item.get("spherical") else "", item["kernel"],
+                "truncating" if item["max_distribution_size"] < item["n"] else "full"))
+        elif item["type"] == "sinkrow":
+            ctx.count_case(item, nontrivial=item["n"] >= 2, kind="sinkrow:b=%d:n=%d" % (item["b"], min(item["n"], 3)))
+        else:
+            ctx.count_case(item, nontrivial=True, kind="approxrow:%s:power=%s" % (item["fmt"], item["power"]))
         if "err" in r:
-            ctx.report("per-row pipeline raised %s: %s" % (r["err"], r.get("msg", "")), {"stage": "oracle", "case": item}, found_input=True)
+            ctx.report("per-row %s raised %s: %s" % (item["type"], r["err"], r.get("msg", "")), {"stage": "oracle", "case": item}, found_input=True)
             continue
-        exprs.append(coq_pipeline(item, r["plan"]))
-        live.append((item, r))
-    model = C.coq_eval_sharded("C08", HEADER, exprs, shard=20, jobs=8) if exprs else []
+    if model_errors:
+        ctx.report("the Coq models could not be evaluated: " + model_errors[0],
+                   {"stage": "correspondence", "correspondence": "Model/K17_LOTglue.v, K17_LOTspherical.v, K17_ApproxW.v"}, found_input=False)
+        live, model = [], []
     bad, worst = [], 0.0
+    per = {"euclidean": [0, 0.0], "spherical": [0, 0.0], "sinkhorn-rows": [0, 0.0], "approx-rows": [0, 0.0]}
+    antipodal = 0
     for (item, r), mv in zip(live, model):
-        mrow = [from_fz(p) for p in mv]
-        ok, dev = row_close(r["out"], mrow, MODEL_TOL)
+        if item["type"] == "sinkrow":
+            key, ok, dev, mrow = "sinkhorn-rows", True, 0.0, []
+            for k, (mrow_k, norms_k) in enumerate(mv):
+                mk = [from_fz(p) for p in mrow_k]
+                ok_k, dev_k, sk = sph_compare(r["out"][k], mk, norms_k, item["d"], False)
+                antipodal += sk
+                ok, dev = ok and ok_k, max(dev, dev_k) if dev_k == dev_k else float("inf")
+                mrow.append(mk)
+            per[key][0] += len(mv)
+        elif item["type"] == "approxrow":
+            key, ok, dev = "approx-rows", True, 0.0
+            mrow = [[from_fz(p) for p in row] for row in mv]
+            for a, b in zip(r["out"], mrow):
+                ok_k, dev_k = row_close(a, b, MODEL_TOL)
+                ok, dev = ok and ok_k, max(dev, dev_k) if dev_k == dev_k else float("inf")
+            ok = ok and len(mrow) == len(r["out"])
+            per[key][0] += len(mrow)
+        elif item.get("spherical"):
+            key = "spherical"
+            mrow = [from_fz(p) for p in mv[0]]
+            ok, dev, sk = sph_compare(r["out"], mrow, mv[1], item["d"], True)
+            antipodal += sk
+            per[key][0] += 1
+        else:
+            key = "euclidean"
+            mrow = [from_fz(p) for p in mv]
+            ok, dev = row_close(r["out"], mrow, MODEL_TOL)
+            per[key][0] += 1
+        dev = dev if dev == dev else float("inf")
+        per[key][1] = max(per[key][1], dev)
         worst = max(worst, dev)
         if not ok:
             bad.append((item, r, mrow, dev))
     ctx.coverage["correspondence"] = {"cases": len(live), "disagreements": len(bad), "max_rel_dev": worst,
-                                      "model": "Model/K17_LOTglue.lot_pipeline_F (PrimFloat) via vm_compute, tolerance 1e-9"}
+                                      "rows_and_max_dev": {k: {"rows": v[0], "max_dev": v[1]} for k, v in per.items()},
+                                      "antipodal_blocks_skipped": antipodal,
+                                      "entries_accepted_on_signed_squares_only": SQRT_EXEMPT[0],
+                                      "float32_tie_blocks_skipped": F32_TIES[0],
+                                      "model": "Model/K17_LOTglue.lot_pipeline_F, Model/K17_LOTspherical.lot_pipeline_sph_F / "
+                                               "sinkhorn_row_F, Model/K17_ApproxW.approx_transform_F (PrimFloat) via vm_compute, "
+                                               "tolerance 1e-9"}
     ctx.coverage["traces_validated_against_impl"] = len(live) - len(bad)
     ctx.coverage["oracle"] = stats
     if bad and not any(v["found_input"] for v in ctx.violations):
         item, r, mrow, dev = bad[0]
-        ctx.report("model K17 lot_pipeline and lot_vectors_%s_internal disagree by %.3g relative (no property-level failure found): "
-                   "impl %s, model %s" % (item["kernel"], dev, r["out"][:6], mrow[:6]),
-                   {"stage": "correspondence", "correspondence": "Model/K17_LOTglue.v <-> lot_vectors_*_internal",
+        what = {"sinkrow": "K17_LOTspherical.sinkhorn_row and sinkhorn_vectors_sparse_internal",
+                "approxrow": "K17_ApproxW.approx_transform and ApproximateWassersteinVectorizer.transform"}.get(
+            item["type"], "K17 lot_pipeline%s and lot_vectors_%s_internal" % ("_sph" if item.get("spherical") else "", item.get("kernel")))
+        ctx.report("model %s disagree by %.3g (no property-level failure found): impl %s, model %s" % (
+                       what, dev, str(r["out"])[:160], str(mrow)[:160]),
+                   {"stage": "correspondence", "correspondence": "Model/K17_LOTglue.v, K17_LOTspherical.v, K17_ApproxW.v <-> "
+                    "lot_vectors_*_internal, sinkhorn_vectors_sparse_internal, ApproximateWassersteinVectorizer.transform",
                     "case": item, "model": mrow, "actual": r["out"]}, found_input=False)
     C.gate_violation(ctx)
     return ctx.finish("proof")
